@@ -23,6 +23,10 @@ INTS = {"Int": (-2**63, 2**63 - 1), "Int8": (-128, 127), "Int16": (-2**15, 2**15
 SLICE_OF = {"Int": "Ints", "Int8": "Ints8", "Int16": "Ints16", "Int32": "Ints32", "Int64": "Ints64", "Uint": "Uints", "Uint8": "Uints8",
             "Uint16": "Uints16", "Uint32": "Uints32", "Uint64": "Uints64"}
 TIMES = [0, 1, -1, 981173106123456789, 1700000000000000000, 1700000000123000000, 253402300799999999999 // 1000 * 0 + 4102444800000000000, -2208988800000000000]
+# instants more than 292 years from 1970 (beyond what a time.Duration since the epoch can hold) WITH a sub-second part; the parts are
+# dyadic (.5 s, .25 s) so that the binary build's float64 seconds carry them exactly. Only used when TimeFieldFormat is not one of the
+# UnixNano-based formats (the statement restricts those to the UnixNano range).
+FAR_TIMES = [16725225600 * 10**9 + 500000000, -11676096000 * 10**9 + 250000000, -62135596800 * 10**9 + 500000000, 253402300799 * 10**9 + 500000000]
 DURS = [0, 1, -1, 999, 1000, 1500000, 1000000000, 3600000000000, -2500000000, 2**62]
 # addresses: 4-byte and 16-byte forms, v4-in-v6, unspecified, and lengths that are neither (String() has a form for those too)
 IPS = [b"\x7f\x00\x00\x01", bytes(range(16)), b"\x00" * 16, b"\xc0\xa8\x00\x01", b"\x00" * 10 + b"\xff\xff\x0a\x00\x00\x01", b"\x00" * 4, b"\xff" * 16,
@@ -32,6 +36,7 @@ MACS = [b"\x00\x14\x22\x01\x23\x45", b"\xff" * 6, b"\x02\x00\x5e\x10\x00\x00\x00
 PREFIXES = [([192, 168, 0, 0], [255, 255, 0, 0]), ([192, 168, 0, 0], [255, 255, 255, 0]), ([10, 0, 0, 0], [0, 0, 0, 0]), ([10, 1, 2, 3], [255, 255, 255, 255]),
             (list(range(16)), [255] * 8 + [0] * 8), ([0x20, 0x01, 0x0d, 0xb8] + [0] * 11 + [1], [255] * 16), ([0xfe, 0x80] + [0] * 14, [255] * 15 + [254]),
             ([0] * 16, [0] * 16), ([10, 0, 0, 0], [255, 224, 0, 0]),
+            ([0] * 10 + [255, 255, 10, 0, 0, 0], [255] * 13 + [0] * 3), ([0] * 10 + [255, 255, 10, 1, 2, 3], [255] * 16),   # IPv4-mapped, /104 and /128
             ([10, 0, 0, 0], [255, 0, 255, 0])]
 # what C08 / C09 name: IPs of 4 or 16 bytes, 6-byte MACs, canonical prefixes (the binary format has no notation for the others:
 # the bundled decoder rejects an 8- or 20-byte hardware address or an empty IP, and a non-contiguous mask has no prefix length)
@@ -440,6 +445,21 @@ class Gen:
             names["msg"] = "?"
         if r.random() < 0.3:
             st["timeFormat"] = r.choice(["", "UNIXMS", "UNIXMICRO", "UNIXNANO", "2006-01-02T15:04:05.999999999Z07:00", "Jan _2 15:04:05"])
+        if st.get("timeFormat") not in ("UNIXMS", "UNIXMICRO", "UNIXNANO") and r.random() < 0.5:
+            # swap some of the program's instants for far ones (see FAR_TIMES)
+            def far(x):
+                if isinstance(x, dict):
+                    if x.get("t") == "time" and "i" in x and r.random() < 0.4:
+                        x["i"] = str(r.choice(FAR_TIMES))
+                    elif x.get("t") == "[]time" and x.get("is") and r.random() < 0.4:
+                        x["is"][r.randrange(len(x["is"]))] = str(r.choice(FAR_TIMES))
+                    for v in x.values():
+                        far(v)
+                elif isinstance(x, list):
+                    for v in x:
+                        far(v)
+            far(ctx_ops)
+            far(ev_ops)
         if r.random() < 0.3:
             st["durInt"] = True
         if r.random() < 0.3:
